@@ -87,6 +87,12 @@ CLAIMED["C04"] = ("4/C04", "Precalculated zones: binary search over a symbolic 3
                   "ZoneInterval construction.",
                   "a single-query walk of a real recurring tail to year 9999 is out of reach (DESIGN 3.6b): the tail is claimed through altmap + "
                   "recurrence + the yearly-rule lemmas of C06; yearly-rule evaluation itself (_ZoneYearOffset) is under C06")
+CLAIMED["C15"] = ("4/C15", "timedelta <-> Duration over timedelta's whole range (exact, round trip) and Duration -> timedelta truncation toward zero "
+                  "with OverflowError exactly outside timedelta's range; time <-> LocalTime over all times; date/datetime through a contract "
+                  "model of the stdlib types (ordinal + microsecond-of-day, OverflowError outside [1, 3652059]) injected into the repository "
+                  "modules: from_date / to_date / from_naive_datetime / to_naive_datetime glue over the whole ordinal range, year-1 boundary; "
+                  "Offset <-> timedelta (float by design) and the model's agreement with CPython as labelled concrete premises.",
+                  "aware datetimes / Instant.to_datetime_utc pending; ISO date <-> ordinal agreement is C02")
 NOT_BUILT = {}
 
 NA_REASON = "check not built yet in this round (design in DESIGN.md section 4); no claim is made"
